@@ -35,6 +35,8 @@ FIELDS = OrderedDict([
     ('g', dict(type=lambda: Integer(gt=0, le=3), ok=lambda v: 0 < v <= 3, base=1, probe=[0, 1, 3, 4])),
     ('o', dict(type=lambda: Integer(min_occurs=1, max_occurs=2), ok=lambda v: 1 <= len(v) <= 2, base=[1],
                probe=[[], [1, 2], [1, 2, 3]], multi=True)),
+    ('ow', dict(type=lambda: Array(Integer(max_occurs=2), wrapped=False), ok=lambda v: len(v) <= 2, base=[1],
+                probe=[[1, 2], [1, 2, 3], [1, 2, 3, 4]], multi=True)),
     ('n', dict(type=lambda: Integer(min_occurs=1, nullable=False), ok=lambda v: v is not ABSENT, base=7,
                probe=['__absent__'])),
     ('v', dict(type=lambda: Integer(values=[2, 4]), ok=lambda v: v in (2, 4), base=2, probe=[4, 3])),
